@@ -16,7 +16,7 @@ CHECKS = {
         "Every test of the grammar `if (g1) [if (g2)] fail_k` / `if (g1) fail_a; if (g2) fail_b` (16 relations over two uint256 arguments and a storage variable set by setUp: ==, !=, <, signed <, >, "
         "x+y=c with overflow witness, x*y=c, x/y=c, x%y=c, sdiv, x**2=c, keccak equality, storage equality, masks; bytes and uint256[] length/element guards; fail_k in Panic(1), Panic(0x11), vm.assertTrue(false), "
         "DSTest fail(), revert, INVALID) is assembled into a Foundry-style test contract and run through halmos.__main__.run_contract with yices and z3, both storage layouts and "
-        "--panic-error-codes in {0x01, 0x11, *}. The same deployed bytecode is executed on the reference EVM with Foundry cheatcode semantics from the reference post-setUp state for every argument tuple of a 12-value "
+        "--panic-error-codes in {0x01, 0x11, *}; dynamic-parameter tests also with length candidates listed out of order. The same deployed bytecode is executed on the reference EVM with Foundry cheatcode semantics from the reference post-setUp state for every argument tuple of a 12-value "
         "boundary/colliding domain per static argument and every length halmos prints for dynamic ones; a PASS without warning while a failing tuple exists is a violation.",
         "Trusted: mc/refevm.py, mc/refcheats.py, the assembler/artefact builder mc/e2e.py, mc/testgen.py. Only the sound direction is asserted. Solver calls have a 1 s / 5 s limit; timeouts give non-PASS verdicts (counted).",
         "DESIGN.md §4 C03",
@@ -40,7 +40,7 @@ CHECKS = {
         "dynamic arrays, struct offsets, packed-key mappings; the same slot written as a run-time hash of concrete data, of symbolic data, and as the precomputed "
         "constant plus offset, with commuted/re-associated additions) is executed by the real SEVM.run in the solidity and generic layouts; for every valuation of "
         "the symbolic keys x,y in {0,1,2} (colliding with the concrete keys) the loaded values must equal a flat 2^256-slot dictionary with real keccak, and every "
-        "valuation must be covered by a reported path. Every entry of halmos/hashes.py is recomputed with keccak and OffsetMap is probed against a dict model.",
+        "valuation must be covered by a reported path. The same programs also run with the account's storage symbolic (vm.enableSymbolicStorage): the reference then starts from the admissible initial state 'every slot holds 0x77', so a never-written slot must read 0x77 on some reported path and a written one its last write. Every entry of halmos/hashes.py is recomputed with keccak and OffsetMap is probed against a dict model.",
         "Trusted: mc/refevm.py SLOAD/SSTORE/TLOAD/TSTORE + keccak, mc/symeval.py. Hash range/injectivity are documented assumptions; the domain stays away from them.",
         "DESIGN.md §4 C08",
         "A",
@@ -53,7 +53,7 @@ CHECKS = {
         "out-of-bounds RETURNDATACOPY/STOP) is assembled into one contract per node. Each node returns a fixed-layout record of what it observes "
         "(CALLER, ORIGIN, ADDRESS, CALLVALUE, storage, transient storage, balance, child success flags, RETURNDATASIZE and child records) and the root "
         "finally dumps storage/transient/balance/code of every account; the whole record must equal the reference EVM's for x in {0,1,balance,balance+1}. "
-        "Stuck paths and uncovered inputs are violations too.",
+        "Further families: callees whose outcome branches on the symbolic input with caller writes after the call, value-bearing self-calls, and two creations at the same address (same CREATE2 salt and init code that reverts iff it receives no value: a failed creation must leave no account behind, a successful one makes the second collide). Stuck paths and uncovered inputs are violations too.",
         "Trusted: mc/refevm.py call/create semantics (Appendix B.1), mc/calltree.py generator. Created addresses are abstract (taken from halmos's trace, "
         "consistency checked through later reads).",
         "DESIGN.md §4 C09",
@@ -62,8 +62,8 @@ CHECKS = {
     "C01": (
         "model_checking",
         "bounded-exhaustive enumeration of all programs of a statement grammar, each run once by the real SEVM.run; every reported path evaluated on every input of a colliding finite grid and compared with a reference EVM",
-        "Every program of <= L statements (quick L=2 over a 100-statement alphabet: arithmetic, memory, storage/transient storage with hashed and "
-        "symbolic locations, keccak, logs, copies, branches, terminators; thorough adds L=3 over a 39-statement alphabet) in both storage layouts is "
+        "Every program of <= L statements (quick L=2 over a 122-statement alphabet: arithmetic, memory, storage/transient storage with hashed and "
+        "symbolic locations, keccak, logs, copies, branches incl. comparisons of a hash with itself plus a constant, symbolic-address EXTCODE*/BALANCE/CALL, terminators; thorough adds L=3 over a 39-statement alphabet) in both storage layouts is "
         "executed symbolically once. For every input of the grid (x,y in 6 boundary values colliding with the grammar's constants, callvalue, caller, "
         "balances) and every reported non-stuck path whose constraints evaluate to true, the claimed error kind, return data (whole memory + probes "
         "of every touched slot) and logs must equal the reference EVM's run of the same bytecode.",
@@ -128,7 +128,7 @@ CHECKS = {
         "Programs: `i = 0; while (i < n) i++; if (i == K) Panic(1)` in two loop shapes (exit on the taken branch / back edge on the taken branch), nested loops, concrete trip counts 0..6, a concrete loop containing a symbolic branch, a four-path test, a test whose failing path is long, a test with an unsupported opcode on one branch; "
         "configurations --loop 1,2,3,6, --width 1,2,3, --depth 40,100, a scripted solver answering unknown / garbage for the stuck-path query. Placements: regular check_* tests, setUp() (concrete and fresh-symbol trip counts), target functions spin/spind(uint256) called during invariant testing at depth 1..3, and two contracts "
         "with the same test signature run in one process. Oracle per test: if the brute force on the reference EVM finds a failing input within the bounds and halmos reports PASS, a warning naming the limit must have been logged for that test (or bounded loops reported); tests with only concrete loop conditions must be FAIL and never "
-        "carry a loop-bound warning; a path stopped at an unsupported opcode must never leave the test PASS.",
+        "carry a loop-bound warning; a path stopped at an unsupported opcode - in the test or in setUp(), at the top level or 1-3 call frames deep - must never leave the test a clean PASS; a symbolic setUp() loop of which exactly one successful path survives the cut must carry the loop-bound warning.",
         "Trusted: mc/refevm.py, mc/invgen.py BFS, the program generators in props/c10_bounds.py, mc/solverstub.py. Warnings are read from the halmos loggers (rebinding of handlers in the harness process).",
         "DESIGN.md §4 C10",
         "A",
@@ -139,7 +139,7 @@ CHECKS = {
         "Seams (module attributes rebound in the harness): Path.to_smt2 and solve.dump. For every path handed to the solver by run_contract on the generated regular tests (26 static guards incl. add/mul/div/mod/sdiv/smod/exp/addmod/mulmod/keccak/storage, dynamic parameters) and on invariant projects at depth 2 - all of which extend a sliced "
         "setUp or frontier state - with and without --cache-solver: the query text parses, has as many assertions as the path has conditions, each structurally equal (else equal after simplification) to the corresponding condition, ids equal to the conditions' ids, cache mode wraps each as `(=> |id| c)`; the dumped file has "
         "the logic header, one (check-sat), (get-model), and in cache mode produce-unsat-cores, get-unsat-core and exactly one named assertion per id. refine() is applied to every query with an abstraction: only declare-fun f_evm_bv* lines may change, none may stay declared, and every produced definition (mul/udiv/urem/sdiv/srem at 256, 264 "
-        "and 512 bits) is evaluated on a 10x10 boundary grid against the exact EVM operation (x/0 = x%0 = 0, signed cases incl. INT_MIN/-1).",
+        "and 512 bits) is evaluated on a 10x10 boundary grid against the exact EVM operation (x/0 = x%0 = 0, signed cases incl. INT_MIN/-1). Histories: for every ordered pair (thorough: permutation) of four tests that constrain a symbol created in setUp(), the set of queries of the joint run must equal the union of the sets each test produces when run alone (differential oracle for constraints leaking between paths that extend the same state).",
         "Trusted: z3's SMT-LIB parser and printer round trip (structural equality after re-parsing), the EVM reference arithmetic in props/c11_query.py. Solver replies are scripted (mc/solverstub.py) so that every query is refined; a subset runs with the real z3.",
         "DESIGN.md §4 C11",
         "A",
@@ -147,8 +147,8 @@ CHECKS = {
     "C12": (
         "exploration",
         "exhaustive sweep over ABI type trees x length-candidate configurations; halmos's calldata is flattened to per-byte atoms and decoded by an independent ABI decoder for every choice of candidate lengths; a reader program on the real SEVM must explore exactly the product of the candidate lists",
-        "Every signature with 1-3 parameters over ABI type trees (base types uint256, uint8, int128, address, bool, bytes4, bytes32, bytes, string; T[], T[1], T[2], tuples; nesting <= 3) x 6 length configurations "
-        "(--default-array-lengths / --default-bytes-lengths / --array-lengths incl. unordered lists and per-name overrides) is built by halmos.calldata.mk_calldata. The result is flattened to (constant byte | byte k of symbol s) atoms "
+        "Every signature with 1-3 parameters over ABI type trees (base types uint256, uint8, int128, address, bool, bytes4, bytes32, bytes, string; T[], T[1], T[2], tuples; nesting <= 3) x 8 configurations "
+        "(--default-array-lengths / --default-bytes-lengths / --array-lengths incl. unordered lists and per-name overrides; named parameters and the unnamed ones solc emits as "") is built by halmos.calldata.mk_calldata. The result is flattened to (constant byte | byte k of symbol s) atoms "
         "and, for every combination of candidate lengths, decoded by an ABI decoder written from the specification: offsets concrete and in range, every leaf a whole, distinct, otherwise unused symbol, leaf regions disjoint, every size "
         "symbol heading exactly one length word. A generated reader program (CALLDATALOAD of every length word) is run on the real SEVM, also with a second symbolic calldata registered on the same path: the returned length tuples must be "
         "exactly the product of the candidate lists. Unsupported types (fixedMxN, ufixed, function) must raise.",
@@ -171,9 +171,9 @@ CHECKS = {
     "C14": (
         "model_checking",
         "bounded-exhaustive enumeration of prank-family operation sequences, state-cheatcode cases and fresh-symbol requests (all widths), each run by the real SEVM.run and compared for every input / tape value with a reference EVM carrying Foundry's cheatcode state machine",
-        "Prank: every sequence of length <= 3 (thorough 4) over prank(a), prank(a,o), startPrank(a), startPrank(a,o), stopPrank(), prank(x) with a symbolic address, CALL/STATICCALL to an observer that calls a second observer, CREATE of an observer, an intervening cheatcode call and a helper frame issuing its own "
-        "prank; every observed (msg.sender, tx.origin) pair - in the callee, in the callee's callee and in constructors - must equal the reference state machine, and halmos may stop with an internal error only where Foundry rejects the sequence (prank over an active prank). State: deal, store/load, etch, warp, roll, fee, chainId, "
-        "coinbase, difficulty with concrete and symbolic arguments, issued from the root or a nested frame, then every relevant opcode read in the same and in another frame on the targeted and on another account. Fresh symbols: createUint/createInt/randomUint/randomInt for bit widths 1..256 (quick: 17 boundary widths), "
+        "Prank: every sequence of length <= 3 (thorough 4) over prank(a), prank(a,o), startPrank(a), startPrank(a,o), stopPrank(), prank(x) with a symbolic address, CALL/STATICCALL to an observer that calls a second observer, CREATE of an observer, an intervening cheatcode call, a helper frame issuing its own prank and a call to an observer that returns on two paths (so that the pranking frame resumes twice); "
+        " every observed (msg.sender, tx.origin) pair - in the callee, in the callee's callee and in constructors - must equal the reference state machine, and halmos may stop with an internal error only where Foundry rejects the sequence (prank over an active prank). State: deal, store/load, etch, warp, roll, fee, chainId, "
+        "coinbase, difficulty with concrete and symbolic arguments, issued from the root or a nested frame, then every relevant opcode read in the same and in another frame on the targeted and on another account; deal/store/load also through a fresh symbolic address that vm.assume pins to an existing account. Fresh symbols: createUint/createInt/randomUint/randomInt for bit widths 1..256 (quick: 17 boundary widths), "
         "bytes/string sizes {0,1,31,32,33,65}, all fixed-type creators, min/max pairs over boundary words: symbol width, zero/sign extension, range constraints, ABI layout and pairwise independence checked against an input-tape reference for every tape value of a grid.",
         "Trusted: mc/refcheats.py (Foundry prank rules, cheatcode effects, tape semantics of fresh values), mc/refevm.py, mc/symeval.py. DELEGATECALL under prank, console calls, balances above 2^128 and cheatcodes issued in frames that later revert are outside the alphabet.",
         "DESIGN.md §4 C14",
@@ -182,7 +182,7 @@ CHECKS = {
     "C15": (
         "model_checking",
         "bounded-exhaustive enumeration of generated invariant-testing projects (target function sets x invariants x depth 0..3 x filter combinations), each run end to end by the real run_contract; verdicts, cached frontier states and explored calls compared with a breadth-first search over all call sequences on a reference EVM",
-        "Projects: a test contract whose setUp() CREATEs 1-2 targets built from {inc, dec, set(uint8), rng(uint8), step, pay, tick, own, bad, dbl} (all subsets of size <= 2, selected / thorough all triples), invariants s != c, s <= 1, t <= 1, --invariant-depth 0..3, and for a two-target project every "
+        "Projects: a test contract whose setUp() CREATEs 1-2 targets built from {inc, dec, set(uint8), rng(uint8), setb(uint8), step, pay, tick, own, bad, dbl} (all subsets of size <= 2, selected / thorough all triples), invariants s != c, s <= 1, t <= 1, t <= block.timestamp (time never runs backwards along a sequence), --invariant-depth 0..3, and for a two-target project every "
         "combination (quick: up to two kinds at a time) of targetSenders/excludeSenders/targetContracts/excludeContracts/targetSelectors (incl. several entries for one address)/excludeSelectors. The reference runs the same bytecode on mc/refevm.py: BFS over all sequences of admitted calls with arguments, senders, "
         "msg.value and timestamp increments from small domains that are complete for this grammar. Oracles: an invariant broken by a sequence of <= d calls <=> halmos FAIL at depth d; every target state reached by the reference in k calls is an instance of a cached frontier state of depth <= k (storage terms and path "
         "conditions grounded over a finite assignment domain), so over-merging, an off-by-one in the depth loop or a dropped target shows up as an unrepresented state; every call recorded in the frontier call sequences is admitted by Foundry's filter rules; a reachable assertion failure inside a target must be reported and fail.",
@@ -195,9 +195,9 @@ CHECKS = {
         "explicit-state exploration of every history of solve_end_to_end calls over a small id alphabet against a scripted ground-truth solver with every core shape, plus a cache-off/cache-on differential of generated many-path tests with real solvers, forced garbage collections and a cache-key invariant",
         "Histories: all sequences of <= 3 (thorough 4) queries (non-empty subsets of four assertion ids, plus a 30-id scenario) on one shared SolvingContext, for four ground-truth families of unsatisfiable id sets and six core shapes (minimal, whole query, with an (error ...) line, wrapped over several lines as yices prints long cores, "
         "empty, garbage). The real dump / from_result / parse_unsat_core / check_unsat_cores / solve_end_to_end run; only the solver subprocess is replaced in-process. Invariants after every call: the answer equals the ground truth, and a query is answered without consulting the solver only if it is unsatisfiable in the ground truth. "
-        "Differential: generated tests with 6..40 paths per function (infeasible branches whose contradiction the external solver must find, sharing or not sharing conditions; vm.assume-based variants) and nested/sequential guard tests are run by run_contract with z3 and yices, cache off and on, every branching query answered `unknown` so that "
+        "Unsat results are handed to the real CounterexampleHandler._solve_end_to_end_callback, which decides what is cached. Differential: two hand-written contracts with ground-truth verdicts (paths decided only by the refined query; a path that is infeasible only through the implicit constraint balance >= value) and generated tests with 6..40 paths per function (infeasible branches whose contradiction the external solver must find, sharing or not sharing conditions; vm.assume-based variants) and nested/sequential guard tests are run by run_contract with z3 and yices, cache off and on, every branching query answered `unknown` so that "
         "infeasible paths reach the solver, with and without a forced gc.collect() before every condition is appended: verdicts and counterexample sets must be equal, every real cache hit is re-solved without the cache and must be unsat, and an assertion id named by a cached core must never come to denote a different condition.",
-        "Trusted: the ground-truth solver and the re-solve with /usr/bin/z3 in props/c16_cache.py. Cores are appended to the shared context by the harness exactly as CounterexampleHandler._solve_end_to_end_callback does in the history layer; the differential layer uses the real callback.",
+        "Trusted: the ground-truth solver and the re-solve with /usr/bin/z3 in props/c16_cache.py. Both layers use halmos's own done-callback to append cores (in the history layer on a bare FunctionContext carrying args, solver_outputs and the solving context).",
         "DESIGN.md §4 C16",
         "A",
     ),
@@ -205,7 +205,7 @@ CHECKS = {
         "model_checking",
         "stateless, deviation/preemption-bounded exploration (CHESS style) of the real halmos/processes.py and solve.solve_low_level under a cooperative scheduler with simulated subprocesses; invariants evaluated on every complete schedule",
         "halmos/processes.py runs unmodified: threading.{Thread,Lock,RLock,Event,Condition}, concurrent.futures' Condition, the thread pool that shutdown(wait=False) uses, Popen, psutil and time are scheduler-owned shims (module attributes rebound in "
-        "the harness process); scheduling points are every shim operation plus every source line of the racy functions of processes.py (sys.settrace). Process exit, communicate()-timeout expiry and spawn failure are environment choices. For 11 harnesses "
+        "the harness process); scheduling points are every shim operation plus every source line of the racy functions of processes.py (sys.settrace). Process exit, communicate()-timeout expiry, spawn failure and a process ignoring SIGTERM (the grace wait then raises psutil.TimeoutExpired and only kill() ends it) are environment choices. For 11 harnesses "
         "(submit racing shutdown(wait=False|True), two jobs with a graceful shutdown and an independent waiter, a job with a time limit, submit after shutdown, graceful then forceful shutdown, two submitters, spawn failure, solve_low_level with 5 s / 300 ms / no limit "
         "and with a concurrent early-exit shutdown) every schedule with <= 1 deviation (thorough: <= 2 for the small harnesses) from the default schedule is executed to completion. Invariants per execution: no deadlock or livelock, no uncaught exception, "
         "every accepted future completes and its waiters get the process output, a job whose limit expired surfaces as TimeoutExpired / `unknown` and never as a result, the limit handed to the process layer is the configured one, once shutdown() has returned "
@@ -234,7 +234,7 @@ CHECKS = {
         "(quick: length<=4 with every symbolic region; thorough: <=5 with every region and <=6 with every prefix/suffix split), in two code "
         "representations. For each contract every observable of the decoder (len, valid_jumpdests, byte reads, decode_instruction at every pc, "
         "slice on the whole (start,size) grid) is compared with an independent reference decoder, and every JUMP/JUMPI program over short "
-        "bodies is executed by the real SEVM.run and compared with a reference interpreter.",
+        "bodies is executed by the real SEVM.run and compared with a reference interpreter; (EXT)CODECOPY programs that read across and past the end of their own code (offsets end-2..end+1, 0, 2^200; sizes 0..64; dirty and fresh memory; MSIZE and CODESIZE afterwards) are compared with the reference EVM.",
         "Trusted: the 20-line reference decoder/interpreter in props/c19_decode.py; z3 substitute+simplify used only to ground extract/concat terms. "
         "Not claimed: random strings up to 4 KiB (sampling).",
         "DESIGN.md §4 C19",
@@ -243,8 +243,8 @@ CHECKS = {
     "C20": (
         "model_checking",
         "explicit-state exploration of test histories (every ordered subset / doubling of the tests of a generated contract, repeated runs in one process, three injective symbol-suffix generators), each executed by the real run_contract and compared test by test with the solo result and with a brute force on a reference EVM",
-        "One generated contract with ten tests chosen to expose leaks: a failing and a passing test, a test that writes the storage variable every other test reads, a test that computes keccak(p) at run time and a test that reads the constant slot keccak(p) written by setUp, two tests that re-read calldata after a branch (one can never "
-        "fail, one fails for exactly one input: sibling-path isolation), and two invariant tests sharing the frontier cache. Histories: every test doubled, every ordered pair, selected (thorough: all) ordered triples, the full list in both orders; a subset again with reversed and multiplicative uid() generators and run twice in one process. "
+        "One generated contract with twelve tests chosen to expose leaks: a failing and a passing test, a test that writes the storage variable every other test reads, a test that computes keccak(p) at run time and a test that reads the constant slot keccak(p) written by setUp, two tests that re-read calldata after a branch (one can never "
+        "fail, one fails for exactly one input: sibling-path isolation), two invariant tests sharing the frontier cache, and a pair for configuration layers (a test that needs three loop iterations under the contract-level annotation --loop 4, a test with the function-level annotation --loop 1). Histories: every test doubled, every ordered pair, selected (thorough: all) ordered triples, the full list in both orders; a subset again with reversed and multiplicative uid() generators and run twice in one process. "
         "Oracle: the normalised result of every test in every history (exit code, path counts, number of counterexamples, validity flags, replay outcome of each valid counterexample on the reference EVM, bounded loops) equals its solo result; solo results agree with a brute force (PASS: no failing input; FAIL: expected input set; invariant verdicts at depth 2).",
         "Trusted: mc/refevm.py, mc/e2e.py, mc/invgen.py. Concrete model values are not compared across runs (a solver may return any model): their replay is. uid() is rebound in the harness process (seam).",
         "DESIGN.md §4 C20",
